@@ -16,7 +16,7 @@
 (* minified; expected value of both merges.                                *)
 (***************************************************************************)
 EXTENDS Gen_Values, JsonValue
-CONSTANTS MaxNodes2, SMode, LayE, LayV   \* SMode: "pairs" | "wide3" | "widearr"; whitespace layouts of the two texts
+CONSTANTS MaxNodes2, SMode, LayE, LayV   \* SMode: "pairs" | "wide3" | "nest2" | "widearr"; whitespace layouts of the two texts
 VARIABLES tree2
 
 IsNEObj(v) == v.k = "obj" /\ Len(v.m) > 0
@@ -64,6 +64,20 @@ Pick(s, f, rev) == LET seq == IF rev THEN <<3, 2, 1>> ELSE <<1, 2, 3>>
                    IN [j \in 1..Len(sel) |-> <<K3[sel[j]], f[sel[j]]>>]
 Wide3V == {Obj(Pick(s, f, rev) \o (IF und THEN << <<<<34,122,34>>, Obj(<< <<K3[1], Tok(N1)>> >>)>> >> ELSE <<>>)) :
              s \in Sub3, f \in [{1, 2, 3} -> Vals3V], rev \in BOOLEAN, und \in BOOLEAN}
+\* "nest2": an object nested in a declared member, followed (or preceded) by another declared member: the existing inner
+\* object has two members whose values range over a scalar, an empty object and an array; the text's inner object provides
+\* any non-empty subset of them, in either order, each as a scalar, an object or an array (so a member is updated in
+\* place, or rebuilt from a container of the text, in the middle of an update of the enclosing objects)
+KD == <<34,100,34>>
+VE2 == {Tok(N1), Obj(<<>>), Arr(<<Tok(N1)>>), Obj(<< <<K3[1], Tok(N1)>> >>)}
+VV2 == {Tok(N1), Obj(<< <<K3[1], Tok(NULL)>> >>), Arr(<<Tok(N1)>>), Obj(<< <<K3[2], Tok(SA)>>, <<K3[1], Tok(N1)>> >>)}
+InnerE2 == {Obj(<< <<K3[1], x>>, <<K3[2], y>> >>) : x \in VE2, y \in VE2}
+Pick2(sx, f, rev) == LET seq == IF rev THEN <<2, 1>> ELSE <<1, 2>>
+                         sel == SelectSeq(seq, LAMBDA i : i \in sx)
+                     IN [j \in 1..Len(sel) |-> <<K3[sel[j]], f[sel[j]]>>]
+InnerV2 == {Obj(Pick2(sx, f, rev)) : sx \in {{1}, {2}, {1, 2}}, f \in [{1, 2} -> VV2], rev \in BOOLEAN}
+Nest2E == {Obj(<< <<KD, i>>, <<K3[3], Tok(N1)>> >>) : i \in InnerE2} \cup {Obj(<< <<K3[3], Tok(N1)>>, <<KD, i>> >>) : i \in InnerE2}
+Nest2V == {Obj(<< <<KD, i>>, <<K3[3], Tok(SA)>> >>) : i \in InnerV2} \cup {Obj(<< <<K3[3], Tok(SA)>>, <<KD, i>> >>) : i \in InnerV2}
 \* "widearr": top-level arrays with many elements (the lazy parser's node stack grows past its initial capacity)
 WArr(n) == Arr([i \in 1..n |-> Tok(IF i % 2 = 0 THEN N1 ELSE SA)])
 WideArrT == {WArr(n) : n \in {0, 1, 15, 16, 17, 33, 70}} \cup {Obj(<< <<K3[1], WArr(17)>> >>), Tok(N1), Obj(<< <<K3[1], Tok(N1)>> >>)}
@@ -72,6 +86,7 @@ InitS == /\ layout = 0
          /\ CASE SMode = "pairs" -> /\ tree \in {t \in AllTrees : DupFree(DenT(t))}
                                     /\ tree2 \in {t \in Small : DupFree(DenT(t))}
               [] SMode = "wide3" -> tree \in Wide3E /\ tree2 \in Wide3V
+              [] SMode = "nest2" -> tree \in Nest2E /\ tree2 \in Nest2V
               [] SMode = "widearr" -> tree \in WideArrT /\ tree2 \in WideArrT
 NextS == UNCHANGED <<tree, tree2, layout>>
 
